@@ -5,6 +5,7 @@ import (
 	"fmt"
 	"sort"
 	"strings"
+	"time"
 
 	"github.com/dolthub/go-mysql-server/memory"
 	"github.com/dolthub/go-mysql-server/sql"
@@ -132,12 +133,25 @@ type privProbe struct {
 var privProbes = []privProbe{
 	{"EXECUTE", "p1()", "CALL d.p1()"},
 	{"SELECT", "t3", "SELECT * FROM d.t3 WHERE 1 = 0"},
+	{"SELECT", "Tm", "SELECT * FROM d.Tm WHERE 1 = 0"},
+	{"UPDATE", "Tm", "UPDATE d.tm SET a = 1 WHERE 1 = 0"},
 	{"SELECT", "t1", "SELECT * FROM d.t1 WHERE 1 = 0"},
 	{"SELECT", "t2", "SELECT * FROM d.t2 WHERE 1 = 0"},
 	{"INSERT", "t1", "INSERT INTO d.t1 (id) SELECT 1 FROM dual WHERE 1 = 0"},
 	{"UPDATE", "t1", "UPDATE d.t1 SET a = 1 WHERE 1 = 0"},
 	{"DELETE", "t2", "DELETE FROM d.t2 WHERE 1 = 0"},
 	{"DELETE", "t1", "DELETE FROM d.t1 WHERE 1 = 0"},
+}
+
+// privHosts: the host part of every generated account of the current run
+// ("localhost" or "%"); survives simulated restarts.
+var privHosts map[string]string
+
+func hostOf(name string) string {
+	if h, ok := privHosts[name]; ok {
+		return h
+	}
+	return "localhost"
 }
 
 type privWorld struct {
@@ -173,6 +187,7 @@ func newPrivWorld(env *kernel.Env, disk *simDisk, load []byte) *privWorld {
 	pw.root.MustExec("CREATE TABLE d.t1 (id INT PRIMARY KEY, a INT)")
 	pw.root.MustExec("CREATE TABLE d.t2 (id INT PRIMARY KEY, b INT)")
 	pw.root.MustExec("CREATE TABLE d.t3 (id INT PRIMARY KEY, c INT)")
+	pw.root.MustExec("CREATE TABLE d.Tm (id INT PRIMARY KEY, a INT)")
 	pw.root.MustExec("INSERT INTO d.t1 VALUES (1, 1), (2, 2)")
 	pw.root.MustExec("INSERT INTO d.t2 VALUES (1, 1), (2, 2)")
 	pw.root.MustExec("INSERT INTO d.t3 VALUES (1, 1)")
@@ -191,7 +206,7 @@ func (pw *privWorld) sessionFor(user string) *Sess {
 
 // grantsOf returns the sorted SHOW GRANTS lines of an account ("" lines when it does not exist).
 func (pw *privWorld) grantsOf(name string) string {
-	r := pw.root.Exec(fmt.Sprintf("SHOW GRANTS FOR '%s'@'localhost'", name))
+	r := pw.root.Exec(fmt.Sprintf("SHOW GRANTS FOR '%s'@'%s'", name, hostOf(name)))
 	if r.Err != nil {
 		return "ERROR " + ErrClass(r.Err)
 	}
@@ -217,19 +232,24 @@ func (pw *privWorld) exists(name string) bool {
 	return r.Err == nil && len(r.Rows) == 1 && fmt.Sprint(r.Rows[0][0]) != "0"
 }
 
-// matches: the engine's accounts and every user's allow/deny matrix are those of model m.
-func (pw *privWorld) matches(m *privModel, all, users []string) bool {
+// mismatch says how the engine's accounts and allow/deny matrices differ from
+// those of model m ("" = they agree).
+func (pw *privWorld) mismatch(m *privModel, all, users []string) string {
 	for _, n := range all {
 		if _, ok := m.accts[n]; ok != pw.exists(n) {
-			return false
+			return fmt.Sprintf("account %s: exists=%v, model %v", n, !ok, ok)
 		}
 	}
 	for _, u := range users {
-		if pw.decisions(u, true) != m.decisions(u) {
-			return false
+		if got, want := pw.decisions(u, true), m.decisions(u); got != want {
+			return fmt.Sprintf("%s decides %s over %s, model %s", u, got, probeNames(), want)
 		}
 	}
-	return true
+	return ""
+}
+
+func (pw *privWorld) matches(m *privModel, all, users []string) bool {
+	return pw.mismatch(m, all, users) == ""
 }
 
 // decisions returns the allow/deny matrix of a user over the probe set.
@@ -287,7 +307,7 @@ func runPriv(env *kernel.Env, cfg privCfg) {
 	tablePrivs := []string{"SELECT", "INSERT", "UPDATE", "DELETE", "CREATE", "DROP", "ALTER", "INDEX"}
 	dbPrivs := append(append([]string{}, tablePrivs...), "EXECUTE")
 	globalPrivs := append(append([]string{}, dbPrivs...), "CREATE USER", "SUPER")
-	objects := []string{"t1", "t2", "t3", "p1()"}
+	objects := []string{"t1", "t2", "t3", "Tm", "p1()"}
 	privsOf := func(obj string) []string {
 		if obj == "p1()" {
 			return []string{"EXECUTE"}
@@ -298,9 +318,31 @@ func runPriv(env *kernel.Env, cfg privCfg) {
 		if obj == "p1()" {
 			return "PROCEDURE d.p1"
 		}
+		if obj == "Tm" {
+			// table names are case-insensitive in this engine
+			return "d." + []string{"Tm", "Tm", "tm", "TM"}[T.Draw(4)]
+		}
 		return "d." + obj
 	}
 	effectN := 0
+	privHosts = map[string]string{}
+	for _, n := range append(append([]string{}, userNames...), roleNames...) {
+		privHosts[n] = []string{"localhost", "%"}[T.Draw(2)]
+	}
+	// ref names an account the way a statement may: with its host, or - for the
+	// host % - without one
+	ref := func(n string) string {
+		if hostOf(n) == "%" && T.Bool(1, 2) {
+			return "'" + n + "'"
+		}
+		return "'" + n + "'@'" + hostOf(n) + "'"
+	}
+	grantOpt := func() string {
+		if T.Bool(1, 6) {
+			return " WITH GRANT OPTION"
+		}
+		return ""
+	}
 	env.Nontrivial()
 	steps := T.Range(4, 30)
 	var lastAck []byte // durable blob after the last acknowledged statement
@@ -322,20 +364,27 @@ func runPriv(env *kernel.Env, cfg privCfg) {
 			sort.Strings(out)
 			return out
 		}
-		switch T.Pick(3, 2, 8, 4, 3, 1, 1) {
+		switch T.Pick(3, 2, 8, 4, 3, 1, 1, 1) {
+		case 7: // a dynamic privilege (global only), with or without the grant option
+			all := append(existing(false), existing(true)...)
+			if len(all) == 0 {
+				continue
+			}
+			n := all[T.Draw(len(all))]
+			q = fmt.Sprintf("GRANT %s ON *.* TO %s%s", []string{"CLONE_ADMIN", "REPLICATION_SLAVE_ADMIN"}[T.Draw(2)], ref(n), []string{"", " WITH GRANT OPTION"}[T.Draw(2)])
 		case 0: // CREATE USER
 			n := userNames[T.Draw(len(userNames))]
 			if _, ok := model.accts[n]; ok {
 				continue
 			}
-			q = fmt.Sprintf("CREATE USER '%s'@'localhost'", n)
+			q = fmt.Sprintf("CREATE USER %s", ref(n))
 			next.accts[n] = newPrivLevel()
 		case 1: // CREATE ROLE
 			n := roleNames[T.Draw(len(roleNames))]
 			if _, ok := model.accts[n]; ok {
 				continue
 			}
-			q = fmt.Sprintf("CREATE ROLE '%s'@'localhost'", n)
+			q = fmt.Sprintf("CREATE ROLE %s", ref(n))
 			next.accts[n] = newPrivLevel()
 			next.isRole[n] = true
 		case 2: // GRANT privilege(s) at a level to a user or role
@@ -357,7 +406,7 @@ func runPriv(env *kernel.Env, cfg privCfg) {
 				} else {
 					acct.global[p] = true
 				}
-				q = fmt.Sprintf("GRANT %s ON *.* TO '%s'@'localhost'", p, n)
+				q = fmt.Sprintf("GRANT %s ON *.* TO %s%s", p, ref(n), grantOpt())
 			case 1:
 				p := dbPrivs[T.Draw(len(dbPrivs))]
 				if allPrivs {
@@ -368,7 +417,7 @@ func runPriv(env *kernel.Env, cfg privCfg) {
 				} else {
 					acct.db[p] = true
 				}
-				q = fmt.Sprintf("GRANT %s ON d.* TO '%s'@'localhost'", p, n)
+				q = fmt.Sprintf("GRANT %s ON d.* TO %s%s", p, ref(n), grantOpt())
 			default:
 				t := objects[T.Draw(len(objects))]
 				ps := privsOf(t)
@@ -384,7 +433,7 @@ func runPriv(env *kernel.Env, cfg privCfg) {
 				} else {
 					acct.table[t][p] = true
 				}
-				q = fmt.Sprintf("GRANT %s ON %s TO '%s'@'localhost'", p, onObj(t), n)
+				q = fmt.Sprintf("GRANT %s ON %s TO %s%s", p, onObj(t), ref(n), grantOpt())
 			}
 		case 3: // REVOKE something that is granted (or everything at a level where something is)
 			type g struct{ n, p, lvl, t string }
@@ -417,21 +466,21 @@ func runPriv(env *kernel.Env, cfg privCfg) {
 			}
 			switch x.lvl {
 			case "global":
-				q = fmt.Sprintf("REVOKE %s ON *.* FROM '%s'@'localhost'", p, x.n)
+				q = fmt.Sprintf("REVOKE %s ON *.* FROM %s", p, ref(x.n))
 				if allPrivs {
 					acct.global = map[string]bool{}
 				} else {
 					delete(acct.global, x.p)
 				}
 			case "db":
-				q = fmt.Sprintf("REVOKE %s ON d.* FROM '%s'@'localhost'", p, x.n)
+				q = fmt.Sprintf("REVOKE %s ON d.* FROM %s", p, ref(x.n))
 				if allPrivs {
 					acct.db = map[string]bool{}
 				} else {
 					delete(acct.db, x.p)
 				}
 			default:
-				q = fmt.Sprintf("REVOKE %s ON %s FROM '%s'@'localhost'", p, onObj(x.t), x.n)
+				q = fmt.Sprintf("REVOKE %s ON %s FROM %s", p, onObj(x.t), ref(x.n))
 				if allPrivs {
 					acct.table[x.t] = map[string]bool{}
 				} else {
@@ -444,7 +493,10 @@ func runPriv(env *kernel.Env, cfg privCfg) {
 				continue
 			}
 			u, r := us[T.Draw(len(us))], rs[T.Draw(len(rs))]
-			q = fmt.Sprintf("GRANT '%s'@'localhost' TO '%s'@'localhost'", r, u)
+			q = fmt.Sprintf("GRANT %s TO %s", ref(r), ref(u))
+			if T.Bool(1, 4) {
+				q += " WITH ADMIN OPTION"
+			}
 			if next.edges[u] == nil {
 				next.edges[u] = map[string]bool{}
 			}
@@ -461,7 +513,7 @@ func runPriv(env *kernel.Env, cfg privCfg) {
 				continue
 			}
 			x := pairs[T.Draw(len(pairs))]
-			q = fmt.Sprintf("REVOKE '%s'@'localhost' FROM '%s'@'localhost'", x[1], x[0])
+			q = fmt.Sprintf("REVOKE %s FROM %s", ref(x[1]), ref(x[0]))
 			delete(next.edges[x[0]], x[1])
 		case 6: // DROP USER / ROLE
 			all := append(existing(false), existing(true)...)
@@ -470,12 +522,12 @@ func runPriv(env *kernel.Env, cfg privCfg) {
 			}
 			n := all[T.Draw(len(all))]
 			if model.isRole[n] {
-				q = fmt.Sprintf("DROP ROLE '%s'@'localhost'", n)
+				q = fmt.Sprintf("DROP ROLE %s", ref(n))
 				for u := range next.edges {
 					delete(next.edges[u], n)
 				}
 			} else {
-				q = fmt.Sprintf("DROP USER '%s'@'localhost'", n)
+				q = fmt.Sprintf("DROP USER %s", ref(n))
 				delete(next.edges, n)
 			}
 			delete(next.accts, n)
@@ -509,9 +561,9 @@ func runPriv(env *kernel.Env, cfg privCfg) {
 			isOld, isNew := pw.matches(durableModel, allNames, userNames), pw.matches(next, allNames, userNames)
 			switch {
 			case fault == "crash-before" && !isOld:
-				env.Fail("crash-consistency", "crash-before-replace-not-old-state", "after a crash before the durable blob was replaced, the restarted engine does not show the last durable state (statement in flight: %q)", q)
+				env.Fail("crash-consistency", "crash-before-replace-not-old-state", "after a crash before the durable blob was replaced, the restarted engine does not show the last durable state (statement in flight: %q): %s", q, pw.mismatch(durableModel, allNames, userNames))
 			case fault == "crash-after" && !isNew && !isOld:
-				env.Fail("crash-consistency", "crash-after-replace-mixed-state", "after a crash right after the durable blob was replaced, the restarted engine shows neither the state before nor the state after %q", q)
+				env.Fail("crash-consistency", "crash-after-replace-mixed-state", "after a crash right after the durable blob was replaced, the restarted engine shows neither the state before (%s) nor the state after %q (%s)", pw.mismatch(durableModel, allNames, userNames), q, pw.mismatch(next, allNames, userNames))
 			}
 			if isNew && !isOld {
 				model, durableModel = next, next
@@ -645,6 +697,35 @@ func runPriv(env *kernel.Env, cfg privCfg) {
 				if lg != sg {
 					env.Fail("reload-equals-live", "show-grants-differ", "SHOW GRANTS FOR %s: live engine [%s], engine reloaded from the persisted data [%s]", n, lg, sg)
 					break
+				}
+			}
+			// the grant tables (what mysql.* shows of the access-control state: grant
+			// and admin options, role edges, dynamic privileges)
+			for _, gt := range []string{"user", "db", "tables_priv", "procs_priv", "role_edges", "global_grants"} {
+				if env.Failed() {
+					break
+				}
+				q := "SELECT * FROM mysql." + gt
+				lr, sr := pw.root.Exec(q), shadow.root.Exec(q)
+				if lr.Err != nil || sr.Err != nil {
+					if ErrClass(lr.Err) != ErrClass(sr.Err) {
+						env.Fail("reload-equals-live", "grant-table-differs:"+gt, "%s: live engine %v, reloaded engine %v", q, lr.Err, sr.Err)
+					}
+					continue
+				}
+				// (password_last_changed is wall-clock time, kept to the second on disk: not access-control state)
+				for _, rows := range [][]sql.Row{lr.Rows, sr.Rows} {
+					for _, row := range rows {
+						for i, v := range row {
+							if _, ok := v.(time.Time); ok {
+								row[i] = "<time>"
+							}
+						}
+					}
+				}
+				lt, st := strings.Join(FormatRows(lr.Rows, false), " "), strings.Join(FormatRows(sr.Rows, false), " ")
+				if lt != st {
+					env.Fail("reload-equals-live", "grant-table-differs:"+gt, "%s: live engine\n  %s\nengine reloaded from the persisted data\n  %s", q, lt, st)
 				}
 			}
 			for _, u := range userNames {
